@@ -285,6 +285,7 @@ M22f == Ch(2, ConstSeq(2), FALSE, FALSE)
 M22fs == Ch(2, ConstSeq(2), FALSE, TRUE)
 Deep == Ch(1, <<Const, Sp(<<O2>>)>>, TRUE, FALSE)                 \* conditional nesting depth 2
 DeepM == Ch(2, <<Const, Sp(<<O2>>), Const>>, TRUE, FALSE)
+Deepest == Ch(1, <<Const, Sp(<<Deep>>)>>, TRUE, FALSE)            \* conditional nesting depth 3
 
 CandsA == {Const, Sp(<<O2>>), Sp(<<M23>>), Sp(<<M22fs>>), Sp(<<M22f>>), Sp(<<M23s>>), Sp(<<O2, O2>>), Sp(<<Deep>>)}
 CandsB == {Const, Sp(<<O2>>), Sp(<<M23>>)}
@@ -292,7 +293,7 @@ CandSeqs(C, N) == UNION { [1..n -> C] : n \in N }
 ChoicesOver(CS, K) == UNION { { Ch(m[1], c, m[2], m[3]) : m \in Modes(K, Len(c)) } : c \in CS }
 
 TopLeaf == LeafCh(1..3, 1..3)
-TopPair == WF(LeafCh(1..2, 2..3) \cup {Deep, DeepM, Ch(2, <<Sp(<<O2>>), Const>>, FALSE, TRUE)})
+TopPair == WF(LeafCh(1..2, 2..3) \cup {Deep, DeepM, Deepest, Ch(2, <<Sp(<<O2>>), Const>>, FALSE, TRUE)})
 TopTriple == {O2, O3, M23s, M22f, Deep}
 
 Bounded(S) == { s \in WF(S) : Size(s) # INF /\ Size(s) <= MaxSize }
